@@ -27,7 +27,6 @@ func init() { drivers["cycles"] = runCycles }
 func cycleReqs(bw bool) []preq {
 	return []preq{
 		{kind: "tcp", name: "c-tcp", port: basePort + 1},
-		{kind: "udp", name: "c-udp", port: basePort + 2, bw: bw},
 		{kind: "http", name: "c-http", domains: []string{"c1.test", "c2.test"}, bw: bw},
 		{kind: "https", name: "c-https", domains: []string{"c3.test"}, sub: "cs"},
 		{kind: "tcpmux", name: "c-mux", domains: []string{"c4.test"}},
@@ -37,6 +36,9 @@ func cycleReqs(bw bool) []preq {
 		{kind: "tcp", name: "c-gtcp", port: basePort + 3, group: "cg", gkey: "k"},
 		{kind: "http", name: "c-ghttp", group: "cg", gkey: "k", domains: []string{"c5.test"}, locs: []string{"/g"}},
 		{kind: "tcpmux", name: "c-gmux", group: "cg", gkey: "k", domains: []string{"c6.test"}},
+		// last: a udp proxy asks for a work connection 500 ms after its registration and would take a
+		// pooled one; in the plain case the session is over long before that
+		{kind: "udp", name: "c-udp", port: basePort + 2, bw: bw},
 	}
 }
 
@@ -59,7 +61,24 @@ func avg(xs []int) float64 {
 	return float64(s) / float64(len(xs))
 }
 
+// settle: wait until the number of goroutines has not changed for 300 ms (at most 3 s): goroutines of
+// closed udp proxies sleep up to 1.5 s before they notice
+func settle() (int, int) {
+	last, since := runtime.NumGoroutine(), time.Now()
+	deadline := time.Now().Add(3 * time.Second)
+	for time.Now().Before(deadline) && time.Since(since) < 300*time.Millisecond {
+		time.Sleep(25 * time.Millisecond)
+		if n := runtime.NumGoroutine(); n != last {
+			last, since = n, time.Now()
+		}
+	}
+	runtime.GC()
+	return runtime.NumGoroutine(), countFDs()
+}
+
 type cycleOut struct {
+	settledG   []int
+	settledF   []int
 	text       string
 	oks        int
 	goroutines []int
@@ -110,8 +129,13 @@ func runCycleCase(seed int64, tag string, addr string, cycles int, serve bool, r
 				w.fail("udp-workconn-not-requested:cycles", fmt.Sprintf("cycle %d: the udp proxy did not take the offered work connection: %s", cy, why))
 			}
 		}
-		w.offerPooled(c)
-		w.offerPooled(c)
+		// pooled work connections nobody needs.  With a udp proxy that holds a work connection they are
+		// offered only in the drop-only cycles: CloseProxy of such a proxy on a live session lets its Run
+		// loop take one more connection out of the pool after the proxy is closed (driver udprace).
+		if !serve || cy%2 == 1 {
+			w.offerPooled(c)
+			w.offerPooled(c)
+		}
 		if cy%2 == 0 {
 			for _, q := range reqs {
 				w.closeProxy(c, q.name)
@@ -138,18 +162,24 @@ func runCycleCase(seed int64, tag string, addr string, cycles int, serve bool, r
 		}
 		out.goroutines = append(out.goroutines, runtime.NumGoroutine())
 		out.fds = append(out.fds, countFDs())
+		// growth is judged on settled samples: after a third of the cycles and after the last one
+		if cy == cycles/3 || cy == cycles {
+			g, f := settle()
+			out.settledG = append(out.settledG, g)
+			out.settledF = append(out.settledF, f)
+		}
 	}
 	out.text = w.caseText()
 	out.oks = w.oks
 	out.steps = len(w.steps)
-	if n := len(out.goroutines); n >= 15 {
-		gg := avg(out.goroutines[n-5:]) - avg(out.goroutines[4:10])
-		fg := avg(out.fds[n-5:]) - avg(out.fds[4:10])
+	if len(out.settledG) == 2 && cycles >= 9 {
+		gg := out.settledG[1] - out.settledG[0]
+		fg := out.settledF[1] - out.settledF[0]
 		if gg > 8 {
-			w.rec.fail("cycles-goroutine-growth", fmt.Sprintf("goroutines grew by %.1f between cycles 5..10 and the last 5 (%s; runtime observation, tolerance 8)", gg, tag), fmt.Sprint(out.goroutines))
+			w.rec.fail("cycles-goroutine-growth", fmt.Sprintf("goroutines grew by %d between cycle %d and cycle %d, both sampled after quiescence (%s; runtime observation, tolerance 8)", gg, cycles/3, cycles, tag), fmt.Sprint(out.settledG, out.goroutines))
 		}
 		if fg > 8 {
-			w.rec.fail("cycles-fd-growth", fmt.Sprintf("open file descriptors grew by %.1f between cycles 5..10 and the last 5 (%s; runtime observation, tolerance 8)", fg, tag), fmt.Sprint(out.fds))
+			w.rec.fail("cycles-fd-growth", fmt.Sprintf("open file descriptors grew by %d between cycle %d and cycle %d, both sampled after quiescence (%s; runtime observation, tolerance 8)", fg, cycles/3, cycles, tag), fmt.Sprint(out.settledF, out.fds))
 		}
 	}
 	return out, nil
@@ -185,6 +215,9 @@ func runCycles(cfg *hx.RunCfg) error {
 		"registrations:plain": plain.oks, "registrations:served": served.oks}
 	cfg.St["goroutines"] = map[string][]int{"plain": plain.goroutines, "served": served.goroutines}
 	cfg.St["fds"] = map[string][]int{"plain": plain.fds, "served": served.fds}
+	cfg.St["settled"] = map[string][]int{"goroutines:plain": plain.settledG, "goroutines:served": served.settledG,
+		"fds:plain": plain.settledF, "fds:served": served.settledF}
+	cfg.St["note"] = "goroutines/fds: one raw sample per cycle (50 ms after the cycle; goroutines of closed udp proxies linger up to 1.5 s, so the raw series ramps up and then stays flat); growth is judged on the two settled samples (after a third of the cycles and after the last)"
 	cfg.St["impl_failures"] = rec.failures
 	return cf.Write(cfg.Out)
 }
